@@ -308,8 +308,12 @@ func initializeSensors(controllers []*hwmon.HwMonController) error {
 					return fmt.Errorf("failed to match platform regex of %s (%s) against controller platform %s: %v", config.ID, config.HwMon.Platform, c.Platform, err)
 				}
 				if matched {
+					sensor, exists := c.Sensors[config.HwMon.Index]
+					if !exists {
+						continue
+					}
 					found = true
-					config.HwMon.TempInput = c.Sensors[config.HwMon.Index].Input
+					config.HwMon.TempInput = sensor.Input
 				}
 			}
 			if !found {
